@@ -5,6 +5,8 @@
 set -u
 patch=$(readlink -f "$1" 2>/dev/null || echo "$1"); [ "$1" = "-" ] && patch="-"; id=$2; seed=${3:-1}; tier=${4:-quick}
 export GOFLAGS=-mod=mod GOPROXY=off
+# disk guard: builds against scratch worktrees fill the go build cache (one set of objects per path)
+if [ "$(df --output=avail -BG / | tail -1 | tr -dc 0-9)" -lt 40 ]; then go clean -cache >/dev/null 2>&1; fi
 wt=$(mktemp -d /tmp/mutwt.XXXXXX); rmdir $wt
 git -C /repo worktree add --detach -q $wt HEAD || exit 2
 trap 'git -C /repo worktree remove --force $wt; rm -f /tmp/mut.$$.mod /tmp/mut.$$.sum /verif/bin/verif-mut.$$' EXIT
